@@ -11,7 +11,8 @@ export CARGO_NET_OFFLINE=true
   cargo build --release --offline -p h_zvariant --features option-as-array
   cargo build --release --offline -p h_zvariant --features gvariant,option-as-array
   cargo build --release --offline -p h_zbus
-  if [ -d h_prog ]; then cargo build --release --offline -p h_prog; fi
+  python3 "$ROOT/tools/gen_prog.py" --seed 0 --out "$ROOT/engine/h_prog/src/generated.rs"
+  cargo build --release --offline -p h_prog
 )
 # warm the feature-matrix target dir (C35) so that its quick tier only pays for the differences
 cd "$ROOT"
